@@ -35,6 +35,50 @@ pub proof fn lemma_area_fits<T>(p: Plane<T>)
 '''
 
 ENC_SPEC = r'''
+// ---- C11: each subsampled chroma sample is the 4:4:4 chroma of a pixel INSIDE ITS OWN BLOCK
+pub open spec fn visited(sy: int, sx: int, cy: int, cx: int, y: int, x: int) -> bool { cy * sy < y || (cy * sy == y && cx * sx < x) }
+pub open spec fn blk_ok<T: Pixel>(pl: Seq<T>, stride: int, input: Seq<[f32; 3]>, w: int, h: int, c: YuvConfig, cy: int, cx: int, k: int) -> bool {
+    exists|py: int, px: int| 0 <= py < h && 0 <= px < w && py / pow2(c.subsampling_y as int) == cy && px / pow2(c.subsampling_x as int) == cx
+        && pl[cell(cy, stride, cx)] == chroma_q::<T>(c, input[#[trigger] cell(py, w, px)], k)
+}
+pub open spec fn blocks_done<T: Pixel>(u: Seq<T>, us: int, v: Seq<T>, vs: int, input: Seq<[f32; 3]>, w: int, h: int, c: YuvConfig, y: int, x: int) -> bool {
+    let sy = pow2(c.subsampling_y as int); let sx = pow2(c.subsampling_x as int);
+    forall|cy: int, cx: int| 0 <= cy < h / sy && 0 <= cx < w / sx && #[trigger] visited(sy, sx, cy, cx, y, x)
+        ==> blk_ok(u, us, input, w, h, c, cy, cx, 1) && blk_ok(v, vs, input, w, h, c, cy, cx, 2)
+}
+pub open spec fn last_ok(last: usize, us: int, w: int, h: int, c: YuvConfig, y: int, x: int) -> bool {
+    let sy = pow2(c.subsampling_y as int); let sx = pow2(c.subsampling_x as int);
+    (last == usize::MAX && forall|cy: int, cx: int| 0 <= cy < h / sy && 0 <= cx < w / sx ==> !#[trigger] visited(sy, sx, cy, cx, y, x))
+    || (exists|cy: int, cx: int| 0 <= cy < h / sy && 0 <= cx < w / sx && #[trigger] visited(sy, sx, cy, cx, y, x) && last == cell(cy, us, cx))
+}
+pub proof fn lemma_cell_inj(a: int, b: int, a2: int, b2: int, s: int, cw: int)
+    by(nonlinear_arith)
+    requires 0 <= b < cw, 0 <= b2 < cw, cw <= s, 0 <= a, 0 <= a2, a * s + b == a2 * s + b2
+    ensures a == a2, b == b2
+{}
+pub proof fn lemma_div_bounds(y: int, d: int)
+    requires 0 <= y, d > 0
+    ensures (y / d) * d <= y < (y / d) * d + d, 0 <= y / d
+{
+    vstd::arithmetic::div_mod::lemma_fundamental_div_mod(y, d);
+    vstd::arithmetic::div_mod::lemma_mod_bound(y, d);
+    vstd::arithmetic::div_mod::lemma_div_pos_is_pos(y, d);
+    assert(d * (y / d) == (y / d) * d) by(nonlinear_arith);
+}
+pub proof fn lemma_mul_div_exact(k: int, d: int)
+    requires d > 0, 0 <= k
+    ensures (k * d) / d == k
+{ vstd::arithmetic::div_mod::lemma_div_multiples_vanish(k, d); assert(d * k == k * d) by(nonlinear_arith); }
+pub proof fn lemma_lt_mul(cx: int, cw: int, sx: int, w: int)
+    by(nonlinear_arith)
+    requires 0 <= cx < cw, sx > 0, cw * sx == w
+    ensures cx * sx < w, cx * sx + sx <= w
+{}
+pub proof fn lemma_exact_quot(w: int, sx: int)
+    requires w >= 0, sx > 0, w % sx == 0
+    ensures (w / sx) * sx == w
+{ vstd::arithmetic::div_mod::lemma_fundamental_div_mod(w, sx); assert(sx * (w / sx) == (w / sx) * sx) by(nonlinear_arith); }
+
 pub open spec fn maxcode(c: YuvConfig) -> int { pow2(c.bit_depth as int) - 1 }
 pub open spec fn all_le<T: Pixel>(s: Seq<T>, m: int) -> bool { forall|i: int| 0 <= i < s.len() ==> 0 <= (#[trigger] s[i]).code() <= m }
 pub open spec fn luma_q<T: Pixel>(c: YuvConfig, px: [f32; 3]) -> T {
@@ -118,6 +162,11 @@ def contracts():
             'yuv_wf(r)',
             # C13: only valid codes
             'all_le(r.data.planes[0].data.v@, maxcode(config)) && all_le(r.data.planes[1].data.v@, maxcode(config)) && all_le(r.data.planes[2].data.v@, maxcode(config))',
+            # C11: every chroma sample is the quantised chroma of a pixel inside its own block (both chroma planes)
+            'origin(r.data.planes[1].cfg) == 0 && origin(r.data.planes[2].cfg) == 0',
+            'forall|cy: int, cx: int| 0 <= cy < height as int / pow2(config.subsampling_y as int) && 0 <= cx < width as int / pow2(config.subsampling_x as int) ==> '
+            '#[trigger] blk_ok(r.data.planes[1].data.v@, r.data.planes[1].cfg.stride as int, input@, width as int, height as int, config, cy, cx, 1) '
+            '&& blk_ok(r.data.planes[2].data.v@, r.data.planes[2].cfg.stride as int, input@, width as int, height as int, config, cy, cx, 2)',
             # C11: luma plane is the pointwise quantisation of the input, row-major
             'forall|y: int, x: int| 0 <= y < height && 0 <= x < width ==> '
             '#[trigger] sample(r.data.planes[0], y, x) == luma_q::<T>(config, input@[cell(y, width as int, x)])'],
@@ -154,13 +203,17 @@ def contracts():
              '''        invariant
             y_origin@.len() == yp0.data.v@.len(), u_origin@.len() == up0.data.v@.len(), v_origin@.len() == vp0.data.v@.len(),
             all_le(y_origin@, maxcode(config)), all_le(u_origin@, maxcode(config)), all_le(v_origin@, maxcode(config)),
-            forall|yy: int, xx: int| 0 <= yy < y && 0 <= xx < width ==> (#[trigger] y_origin@[cell(yy, y_stride as int, xx)]) == luma_q::<T>(config, input@[cell(yy, width as int, xx)]),'''),
+            forall|yy: int, xx: int| 0 <= yy < y && 0 <= xx < width ==> (#[trigger] y_origin@[cell(yy, y_stride as int, xx)]) == luma_q::<T>(config, input@[cell(yy, width as int, xx)]),
+            blocks_done(u_origin@, u_stride as int, v_origin@, v_stride as int, input@, width as int, height as int, config, y as int, 0),
+            last_ok(last_uv_pos, u_stride as int, width as int, height as int, config, y as int, 0),'''),
             ('for x in ', 'loop',
              '''            invariant
                 y_origin@.len() == yp0.data.v@.len(), u_origin@.len() == up0.data.v@.len(), v_origin@.len() == vp0.data.v@.len(),
                 all_le(y_origin@, maxcode(config)), all_le(u_origin@, maxcode(config)), all_le(v_origin@, maxcode(config)),
                 forall|yy: int, xx: int| 0 <= yy < y && 0 <= xx < width ==> (#[trigger] y_origin@[cell(yy, y_stride as int, xx)]) == luma_q::<T>(config, input@[cell(yy, width as int, xx)]),
-                forall|xx: int| 0 <= xx < x ==> (#[trigger] y_origin@[cell(y as int, y_stride as int, xx)]) == luma_q::<T>(config, input@[cell(y as int, width as int, xx)]),'''),
+                forall|xx: int| 0 <= xx < x ==> (#[trigger] y_origin@[cell(y as int, y_stride as int, xx)]) == luma_q::<T>(config, input@[cell(y as int, width as int, xx)]),
+                blocks_done(u_origin@, u_stride as int, v_origin@, v_stride as int, input@, width as int, height as int, config, y as int, x as int),
+                last_ok(last_uv_pos, u_stride as int, width as int, height as int, config, y as int, x as int),'''),
             ('let input_pos', 'before',
              '''                proof {
                     lemma_cell(y as int, height as int, width as int, x as int);
@@ -171,11 +224,71 @@ def contracts():
                     lemma_sample_in_bounds(up0, y as int / pow2(ss_y as int), x as int / pow2(ss_x as int));
                     lemma_sample_in_bounds(vp0, y as int / pow2(ss_y as int), x as int / pow2(ss_x as int));
                 }'''),
-            ('if u_pos != last_uv_pos', 'before',
+            (r're:^\s*if .*last_uv_pos', 'before',
              '''                proof {
                     assert forall|yy: int, xx: int| ((0 <= yy < y && 0 <= xx < width) || (yy == y && 0 <= xx < x))
                         implies cell(yy, y_stride as int, xx) != cell(y as int, y_stride as int, x as int) by {
                         if yy < y { lemma_cell_lt(yy, y as int, y_stride as int, xx, x as int); }
+                    }
+                }'''),
+            (r're:^\s*if .*last_uv_pos', 'before', '''                let ghost last0 = last_uv_pos; let ghost u0 = u_origin@; let ghost v0 = v_origin@;'''),
+            (r're:^\s*last_uv_pos = ', 'after+3', '''            proof {
+                let sy = pow2(ss_y as int); let sx = pow2(ss_x as int); let w = width as int; let h = height as int;
+                lemma_exact_quot(w, sx);
+                assert forall|cy2: int, cx2: int| 0 <= cy2 < h / sy && 0 <= cx2 < w / sx implies
+                    (#[trigger] visited(sy, sx, cy2, cx2, y as int + 1, 0) <==> visited(sy, sx, cy2, cx2, y as int, w)) by { lemma_lt_mul(cx2, w / sx, sx, w); }
+                if exists|cy3: int, cx3: int| 0 <= cy3 < h / sy && 0 <= cx3 < w / sx && #[trigger] visited(sy, sx, cy3, cx3, y as int, w) && last_uv_pos == cell(cy3, u_stride as int, cx3) {
+                    let (cy3, cx3) = choose|cy3: int, cx3: int| 0 <= cy3 < h / sy && 0 <= cx3 < w / sx && #[trigger] visited(sy, sx, cy3, cx3, y as int, w) && last_uv_pos == cell(cy3, u_stride as int, cx3);
+                    lemma_lt_mul(cx3, w / sx, sx, w);
+                    assert(visited(sy, sx, cy3, cx3, y as int + 1, 0));
+                } else {
+                    assert forall|cy2: int, cx2: int| 0 <= cy2 < h / sy && 0 <= cx2 < w / sx implies !#[trigger] visited(sy, sx, cy2, cx2, y as int + 1, 0) by {
+                        lemma_lt_mul(cx2, w / sx, sx, w);
+                        if visited(sy, sx, cy2, cx2, y as int + 1, 0) { assert(visited(sy, sx, cy2, cx2, y as int, w)); }
+                    }
+                }
+                assert(last_ok(last_uv_pos, u_stride as int, w, h, config, y as int + 1, 0));
+            }'''),
+            (r're:^\s*last_uv_pos = ', 'after+1', '''                proof {
+                    let sy = pow2(ss_y as int); let sx = pow2(ss_x as int); let w = width as int; let h = height as int;
+                    let us = u_stride as int; let vs = v_stride as int; let cw = w / sx; let chh = h / sy;
+                    let cy = y as int / sy; let cx = x as int / sx;
+                    lemma_div_bounds(y as int, sy); lemma_div_bounds(x as int, sx);
+                    lemma_exact_quot(w, sx); lemma_exact_quot(h, sy);
+                    assert(cw <= us && cw <= vs);
+                    assert(visited(sy, sx, cy, cx, y as int, x as int + 1));
+                    assert forall|cy2: int, cx2: int| 0 <= cy2 < chh && 0 <= cx2 < cw && #[trigger] visited(sy, sx, cy2, cx2, y as int, x as int + 1)
+                        implies blk_ok(u_origin@, us, input@, w, h, config, cy2, cx2, 1) && blk_ok(v_origin@, vs, input@, w, h, config, cy2, cx2, 2) by {
+                        if cy2 == cy && cx2 == cx {
+                            if last0 != u_pos {
+                                assert(cell(y as int, w, x as int) == input_pos);
+                                assert(u_origin@[cell(cy, us, cx)] == chroma_q::<T>(config, input@[cell(y as int, w, x as int)], 1));
+                                assert(v_origin@[cell(cy, vs, cx)] == chroma_q::<T>(config, input@[cell(y as int, w, x as int)], 2));
+                            } else {
+                                // nothing written: the block was reached before (last0 names a visited position with the same index)
+                                let (cy3, cx3) = choose|cy3: int, cx3: int| 0 <= cy3 < chh && 0 <= cx3 < cw && #[trigger] visited(sy, sx, cy3, cx3, y as int, x as int) && last0 == cell(cy3, us, cx3);
+                                lemma_cell_inj(cy3, cx3, cy, cx, us, cw);
+                                assert(visited(sy, sx, cy, cx, y as int, x as int));
+                            }
+                        } else {
+                            if !visited(sy, sx, cy2, cx2, y as int, x as int) {
+                                // newly reached blocks start exactly at (y, x): that is the current block
+                                assert(cy2 * sy == y && cx2 * sx == x);
+                                lemma_mul_div_exact(cy2, sy); lemma_mul_div_exact(cx2, sx);
+                            }
+                            if last0 != u_pos {
+                                if cy2 != cy || cx2 != cx { if cell(cy2, us, cx2) == cell(cy, us, cx) { lemma_cell_inj(cy2, cx2, cy, cx, us, cw); } if cell(cy2, vs, cx2) == cell(cy, vs, cx) { lemma_cell_inj(cy2, cx2, cy, cx, vs, cw); } }
+                                assert(u_origin@[cell(cy2, us, cx2)] == u0[cell(cy2, us, cx2)]);
+                                assert(v_origin@[cell(cy2, vs, cx2)] == v0[cell(cy2, vs, cx2)]);
+                                assert(blk_ok(u0, us, input@, w, h, config, cy2, cx2, 1) && blk_ok(v0, vs, input@, w, h, config, cy2, cx2, 2));
+                            }
+                        }
+                    }
+                    assert(last_ok(last_uv_pos, us, w, h, config, y as int, x as int + 1)) by {
+                        if last0 == u_pos {
+                            let (cy3, cx3) = choose|cy3: int, cx3: int| 0 <= cy3 < chh && 0 <= cx3 < cw && #[trigger] visited(sy, sx, cy3, cx3, y as int, x as int) && last0 == cell(cy3, us, cx3);
+                            assert(visited(sy, sx, cy3, cx3, y as int, x as int + 1));
+                        }
                     }
                 }'''),
             ('Yuv::new(output, config)', 'before',
@@ -200,6 +313,12 @@ def contracts():
         assert(dec_ok(output, config));
         assert(chroma_size_ok(output, config));
         assert(accept(output, config));
+        assert forall|cy: int, cx: int| 0 <= cy < height as int / pow2(ss_y as int) && 0 <= cx < width as int / pow2(ss_x as int) implies
+            #[trigger] blk_ok(output.planes[1].data.v@, output.planes[1].cfg.stride as int, input@, width as int, height as int, config, cy, cx, 1)
+            && blk_ok(output.planes[2].data.v@, output.planes[2].cfg.stride as int, input@, width as int, height as int, config, cy, cx, 2) by {
+            lemma_exact_quot(height as int, pow2(ss_y as int)); lemma_lt_mul(cy, height as int / pow2(ss_y as int), pow2(ss_y as int), height as int);
+            assert(visited(pow2(ss_y as int), pow2(ss_x as int), cy, cx, height as int, 0));
+        }
         assert forall|y: int, x: int| 0 <= y < height && 0 <= x < width implies
             #[trigger] sample(output.planes[0], y, x) == luma_q::<T>(config, input@[cell(y, width as int, x)]) by {
             assert(sample(output.planes[0], y, x) == y_origin@[cell(y, y_stride as int, x)]);
